@@ -34,8 +34,8 @@ CHECK = {
         "crossing, winding in {0,1}. Samples: both normals of input edges at |delta|-c-kB, |delta|+kB, random "
         "fractions of |delta|, kB (k in 2,10,100,1e4); circles of those radii and of Dmax around input vertices; "
         "along corner bisectors to Dmax; around result edges and vertices at kB; 7x7 stratified. Witnesses in the "
-        "'collapse regime' (some input edge entirely consumed by the concave joins at its ends, |delta|*tan(turn/2) "
-        "each) are keyed offset:concave-join-collapse:*. HULL (point sets: uniform, lattice, circle, collinear, "
+        "'collapse regime' (some concave join consumes at least half of an adjacent input edge: |delta|*tan(turn/2) "
+        ">= len/2) are keyed offset:concave-join-collapse:*. HULL (point sets: uniform, lattice, circle, collinear, "
         "near-collinear with noise 1e-17..1e-6, duplicates, points on polygon edges, needle, gaussian, 0..10000 "
         "points, scales 1e-6..1e6; Hull(SimplePolygon), Hull(Polygons), cs.Hull(), Hull(vector)): every output "
         "vertex equals an input point (operator== on both coordinates), one contour, no reflex vertex deeper than B "
@@ -87,8 +87,9 @@ TEXT = {
              "valid and invalid miter limits and segment counts; Hull (bit-equal vertices, convex, contains all inputs), "
              "Decompose (contour multiset, area sum, one outline per part, holes in their smallest containing outline) and "
              "Simplify (in-order subsequence, no vertex closer than the tolerance to its neighbours' chord) are checked on "
-             "every case. OPEN FINDING: whenever |delta| consumes an entire input edge between two concave joins (inset "
-             "deeper than a part is wide, dilation closing a hole or notch) Offset returns a wrong region, e.g. "
+             "every case. OPEN FINDING: whenever a concave join consumes half or more of an adjacent input edge (inset "
+             "deeper than a part is wide, dilation closing a hole or notch, large delta next to a reflex corner) Offset can "
+             "return a wrong region, e.g. "
              "Square(1).Offset(-2) has area 2 instead of 0 (keys offset:concave-join-collapse:*)."),
     "note": ("Trusts harness/c11_geom2d.h and g++'s sanitizers; sampling, not proof. Points inside the explicit bands "
              "(8*eps + chordal error + documented straight-corner and arc-merge slack) never decide. In the collapse regime "
